@@ -162,6 +162,11 @@ def gen_rp_cases(rng, thorough):
         # an origin that answers at once and reads the body afterwards
         add(front, "post-origin-answers-first", method=7, path="/form", req_hs=[("content-length", "%d" % (2000 if h3 else 300000))],
             req_body=(2000 if h3 else 300000, rng.below(256), 0), wants=0, resp_len=5000)
+        if not h3:
+            # ... and one that starts its answer early, finishes it 1.2 s later and reads the body only then: by then every buffer
+            # on the way is full and the endpoint is waiting for the origin to take more (a body of 24 MiB)
+            add(front, "post-24MiB-origin-answers-before-reading", method=7, path="/rp/upload", req_hs=[("content-length", "%d" % (24 << 20))],
+                req_body=(24 << 20, rng.below(256), 0), wants=0, pause=1200, cuts=[10], resp_len=100)
         # (2) response heads: sizes
         add(front, "head-small", resp_len=1000)
         add(front, "head-1000-bytes", fields=padded(1000))
